@@ -279,6 +279,13 @@ def valid_changes(cfg, model):
              # the documented un-prefixed spellings of the context-wide settings, and an empty per-category list
              {"vary_rounds": "7%"}, {"truncate_error": True}, {"admin__context__deprecated": []},
              {"admin__context__default": L[0]}, {"staff__context__deprecated": [L[0]]}, {"schemes": list(cfg["schemes"][1:]) if isinstance(cfg["schemes"], list) and len(L) > 1 else cfg["schemes"]}, {"schemes": list(reversed(cfg["schemes"])) if isinstance(cfg["schemes"], list) else cfg["schemes"]}]
+    if isinstance(cfg["schemes"], list) and all(isinstance(x, str) for x in cfg["schemes"]):
+        # a scheme that takes a context keyword (user=) joins a list that had none / leaves a list that had one:
+        # the keyword is passed to that scheme and dropped for the others, as in a context built in one go
+        if "postgres_md5" not in cfg["schemes"]:
+            cands.append({"schemes": list(cfg["schemes"]) + ["postgres_md5"]})
+        elif len(cfg["schemes"]) > 1:
+            cands.append({"schemes": [x for x in cfg["schemes"] if x != "postgres_md5"]})
     for s in rs[:2]:
         sc = P.SCALE[s]
         cands += [{f"{s}__max_rounds": sc["b"] - 1}, {f"{s}__min_rounds": str(sc["a"] + 1)}, {f"{s}__rounds": sc["r"]},
